@@ -21,7 +21,7 @@ for d in sorted(os.listdir(root)):
             if v.get("exit") == 1 and v.get("violation_lines", 0) > 0:
                 fp = (v.get("first_fingerprints") or [""])[0]
                 fp = fp if len(fp) < 70 else fp[:69] + "…"
-                parts.append(f"**{k}** ({v['violation_lines']} lines; `{fp}`)")
+                parts.append(f"**{k}** ({v['violation_lines']} lines; `{fp}`)" if fp else f"**{k}** ({v['violation_lines']} lines)")
             else:
                 parts.append(f"{k}: not detected")
         else:
